@@ -10,7 +10,7 @@ from litedram.frontend.axi import LiteDRAMAXIPort
 from litedram.frontend.dma import LiteDRAMDMAReader, LiteDRAMDMAWriter
 
 from ..engine import Sim
-from ..agents import stuck, NativeMemSlave, Violations, word_of, init_word, StreamDriver, StreamSink, Pattern
+from ..agents import StallCounter, stuck, NativeMemSlave, Violations, word_of, init_word, StreamDriver, StreamSink, Pattern
 from .c07 import gen_pattern, gen_extra
 
 ID = "C12"
@@ -162,12 +162,16 @@ def run(scn):
         def on_out(x):
             out.append((x["data"], x["last"]))
         snk = StreamSink(sim, dut.source, ["data", "last"], ready=scn.get("ready"), on_xfer=on_out)
+        sc_out = StallCounter(sim, dut.source.valid, dut.source.ready)
+        sc_in = StallCounter(sim, dut.sink.valid, dut.sink.ready)
         agents = [drv, snk, mem]
     else:
         for k, it in enumerate(items):
             it["data"] = word_of(it["id"], nb)
         drv = StreamDriver(sim, dut.sink, items, ["address", "data", "last"])
         snk = None
+        sc_out = None
+        sc_in = StallCounter(sim, dut.sink.valid, dut.sink.ready)
         agents = [drv, mem]
     for a in agents:
         if a is not mem or not core:
@@ -237,6 +241,8 @@ def run(scn):
                 break
         stats["words"] = len(wl)
     stats["core_variant_runs"] = 1 if core else 0
+    stats["consumer_stall_cycles"] = sc_out.n if sc_out else 0
+    stats["fifo_full_hits"] = sc_in.n        # cycles in which the DMA refused a request (FIFO / reservation full or port busy)
     return {"violations": viol.v, "stats": stats, "cycles": cyc, "sim_ps": sim.now, "digest": sim.digest(),
             "nontrivial": stats["words"] >= 2, "states": ["%s %s d%d" % (kind, ptype, depth)],
             "summary": {"kind": kind, "port": ptype, "depth": depth, "items": n, "cycles": cyc}}
